@@ -138,6 +138,7 @@ class Engine:
         self.field_uf = {}
         self.notes = []
         self.assumptions = set()
+        self.undeclared_fields = set()      # fields found in constructors but not declared in the sidecar (evidence)
         self.int_fields_seen = []           # int / enum fields of symbolic message objects that were read
         self.int_field_bound = None         # EXTRAS["int_field_bound"]: |field| < pow256(K) (assumption on message values)
 
@@ -514,6 +515,35 @@ class Engine:
             raise Unsupported(f"no field declaration for mutable class {ci.key}")
         for fname, fty in decl.items():
             o.fields[fname] = self.fresh_of_type(fty, p, ci.module, f"{name}.{fname}")
+        # fields the sidecar does not declare (added by a later change to the class): discovered from the constructors, typed by the
+        # literal they are initialised with, so that the function can still be executed and its contract clauses decide
+        for c in self.prog.mro(ci):
+            init = c.methods.get("__init__")
+            if init is None:
+                continue
+            for n in ast.walk(init.node):
+                if isinstance(n, (ast.Assign, ast.AnnAssign)):
+                    tgts = n.targets if isinstance(n, ast.Assign) else [n.target]
+                    for t_ in tgts:
+                        if isinstance(t_, ast.Attribute) and isinstance(t_.value, ast.Name) and t_.value.id == "self" and t_.attr not in o.fields:
+                            v_ = n.value
+                            ty = None
+                            if isinstance(v_, ast.Constant) and isinstance(v_.value, bool):
+                                ty = "bool"
+                            elif isinstance(v_, ast.Constant) and isinstance(v_.value, int):
+                                ty = "int"
+                            elif isinstance(v_, ast.Constant) and isinstance(v_.value, bytes):
+                                ty = "bytes"
+                            elif isinstance(v_, ast.Constant) and v_.value is None and isinstance(n, ast.AnnAssign):
+                                ty = self.ann_text(n.annotation)
+                            elif isinstance(v_, ast.Call) and isinstance(v_.func, ast.Name) and v_.func.id in ("bytearray", "bytes", "set"):
+                                ty = {"bytearray": "bytearray", "bytes": "bytes", "set": "t.Set[int]"}[v_.func.id]
+                            if ty is not None:
+                                try:
+                                    o.fields[t_.attr] = self.fresh_of_type(ty, p, ci.module, f"{name}.{t_.attr}")
+                                    self.undeclared_fields.add(f"{ci.key}.{t_.attr}: {ty}")
+                                except Unsupported:
+                                    pass
         return o
 
     @staticmethod
